@@ -180,8 +180,10 @@ def _selftest(ctx, mon, name, block, corrupt):
     vf.write_ndjson(bad, cb)
     ok1, _ = ctx.validate_trace(mon[0], mon[1], good, name="selftest_%s_good" % name, timeout=600)
     ok2, _ = ctx.validate_trace(mon[0], mon[1], bad, name="selftest_%s_bad" % name, timeout=600)
-    if not ok1 or ok2:
-        raise vf.Infra("monitor self-test failed (%s): accepted good=%s, accepted corrupted=%s" % (name, ok1, ok2))
+    if not ok1:
+        return  # the recorded block itself is rejected: the main validation reports it
+    if ok2:
+        raise vf.Infra("monitor self-test failed (%s): the corrupted copy of an accepted block was accepted" % name)
     ctx.extra.setdefault("selftests", []).append(name)
 
 
